@@ -62,6 +62,40 @@ Proof.
   - rewrite ltb_1_SS. reflexivity.
 Qed.
 
+(* a name that does not start with "$": empty, or its first character differs from "$" in
+   some bit; [tac] closes every such case (the kernel then computes [starts_dollar]) *)
+Ltac no_dollar k H tac :=
+  let b0 := fresh "b" in let b1 := fresh "b" in let b2 := fresh "b" in let b3 := fresh "b" in
+  let b4 := fresh "b" in let b5 := fresh "b" in let b6 := fresh "b" in let b7 := fresh "b" in
+  let k' := fresh "k" in
+  destruct k as [|[b0 b1 b2 b3 b4 b5 b6 b7] k']; [tac|];
+  destruct b0; [tac|]; destruct b1; [tac|]; destruct b2; [|tac]; destruct b3; [tac|];
+  destruct b4; [tac|]; destruct b5; [|tac]; destruct b6; [tac|]; destruct b7; [tac|];
+  discriminate H.
+
+Lemma seval_field1 vars doc k a : starts_dollar k = false ->
+  seval vars doc (VDoc [(k, a)]) =
+  if negb (plain_name k) then SUndef else
+  match seval vars doc a with
+  | SV v => SV (VDoc [(k, v)])
+  | SMiss => SV (VDoc [])
+  | other => other
+  end.
+Proof.
+  intros H. no_dollar k H ltac:(reflexivity).
+Qed.
+
+Lemma eval_field1 vars doc k a : starts_dollar k = false ->
+  eval vars doc true (VDoc [(k, a)]) =
+  match eval vars doc true a with
+  | EV v => EV (VDoc [(k, v)])
+  | EMiss => EV (VDoc [])
+  | EE er => EE er
+  end.
+Proof.
+  intros H. no_dollar k H ltac:(reflexivity).
+Qed.
+
 Lemma fields_agree vars doc l : forall acc,
   (forall k x, In (k, x) l -> R (seval (lift vars) doc x) (eval vars doc true x)) ->
   R (s_fields (lift vars) doc l acc) (m_fields vars doc l acc).
@@ -105,7 +139,7 @@ Lemma seval_plain_doc vars doc afs :
 Proof.
   intros Hd. destruct afs as [|[k a] [|kv2 afs]].
   - exact I.
-  - simpl in Hd. rewrite orb_false_r in Hd. simpl. rewrite Hd. simpl.
+  - simpl in Hd. rewrite orb_false_r in Hd. rewrite (seval_field1 _ _ _ _ Hd).
     destruct (plain_name k); simpl; [|exact I]. destruct (seval vars doc a); exact I.
   - rewrite seval_doc_multi, Hd.
     destruct (negb (forallb (fun kv : string * value => plain_name (fst kv)) ((k, a) :: kv2 :: afs))); [exact I|].
@@ -116,7 +150,8 @@ Lemma case_doc_single doc k arg : starts_dollar k = false -> IHarg doc arg -> P 
 Proof.
   intros Hk IH vars Hg. simpl in Hg. rewrite Hk in Hg. simpl in Hg.
   pose proof (IH arg (le_n _) vars Hg) as Ha.
-  simpl. rewrite Hk. simpl. destruct (plain_name k); simpl; [|done_R].
+  rewrite (seval_field1 _ _ _ _ Hk), (eval_field1 _ _ _ _ Hk).
+  destruct (plain_name k); simpl; [|done_R].
   rc Ha; done_R.
 Qed.
 
@@ -197,9 +232,14 @@ Definition s_add (k : string) (args : list sres) : sres :=
        | None => SUndef
        end.
 
+Lemma seval_add_gen k vars doc arg : k = "$add" \/ k = "$multiply" ->
+  seval vars doc (VDoc [(k, arg)]) =
+  s_add k (match arg with VArr xs => map (seval vars doc) xs | _ => [seval vars doc arg] end).
+Proof. intros [->| ->]; reflexivity. Qed.
+
 Lemma seval_add k vars doc xs : k = "$add" \/ k = "$multiply" ->
   seval vars doc (VDoc [(k, VArr xs)]) = s_add k (map (seval vars doc) xs).
-Proof. intros [->| ->]; reflexivity. Qed.
+Proof. intros Hk. exact (seval_add_gen k vars doc (VArr xs) Hk). Qed.
 
 Lemma scan_null k vs l :
   forallb (fun v => is_null v || is_num v) l = true -> existsb is_null l = true ->
@@ -230,6 +270,12 @@ Proof.
   simpl in *. apply andb_true_iff in Ha. destruct Ha as [Hv Ha].
   apply orb_false_iff in Hn. destruct Hn as [Hn1 Hn2]. rewrite Hn1 in Hv. simpl in Hv.
   rewrite Hv, (IH Ha Hn2). reflexivity.
+Qed.
+
+Lemma eval_add_plain k vars doc arg : k = "$add" \/ k = "$multiply" -> is_arr arg = false ->
+  eval vars doc true (VDoc [(k, arg)]) = EE ECrash.
+Proof.
+  intros Hk' Ea. destruct Hk' as [->| ->]; destruct arg; try discriminate Ea; reflexivity.
 Qed.
 
 Lemma case_addmul doc k arg : In k ["$add"; "$multiply"] -> IHarg doc arg -> P doc (VDoc [(k, arg)]).
@@ -271,9 +317,7 @@ Proof.
            destruct (sprod v r); rewrite Hp; done_R.
   - (* operand not written as an array: F-ADD-SCALAR *)
     destruct (guard_unary _ _ _ _ Ho Ea Hg) as [_ Hn].
-    assert (Hm : eval vars doc true (VDoc [(k, arg)]) = EE ECrash).
-    { destruct Hk' as [->| ->]; destruct arg; try discriminate Ea; reflexivity. }
-    rewrite Hm.
+    rewrite (eval_add_plain _ _ _ _ Hk' Ea).
     assert (Hbit : node_reasons k arg [eval vars doc true arg] = 0 -> False).
     { intros H. unfold node_reasons in H. destruct Hk' as [->| ->]; destruct arg; try discriminate Ea;
         simpl in H; split_guard H; discriminate. }
@@ -282,7 +326,7 @@ Proof.
         [exfalso; apply Hbit; apply Hn; reflexivity|].
       pose proof (seval_plain_doc (lift vars) doc afs Ed) as Hs.
       assert (Hsp : seval (lift vars) doc (VDoc [(k, VDoc afs)]) = s_add k [seval (lift vars) doc (VDoc afs)])
-        by (destruct Hk' as [->| ->]; reflexivity).
+        by exact (seval_add_gen k (lift vars) doc (VDoc afs) Hk').
       rewrite Hsp. clear Hsp. unfold s_add.
       destruct (seval (lift vars) doc (VDoc afs)) as [v| | |]; try destruct Hs; simpl; try done_R.
       destruct v; try destruct Hs; simpl; done_R.
@@ -352,11 +396,11 @@ Lemma eval_concatArrays vars doc arg :
   | VArr xs => with_list (map (fun x => many_item true (eval vars doc true x)) xs) m_concatArrays
   | _ => with_list [many_item true (eval vars doc true arg)] m_concatArrays
   end.
-Proof. destruct arg; reflexivity. Qed.
+Proof. reflexivity. Qed.
 Lemma seval_concatArrays vars doc arg :
   seval vars doc (VDoc [("$concatArrays", arg)]) =
   s_concatArrays (match arg with VArr xs => map (seval vars doc) xs | _ => [seval vars doc arg] end).
-Proof. destruct arg; reflexivity. Qed.
+Proof. reflexivity. Qed.
 
 (* the values collected from the operands *)
 Lemma collect_vals ms : forall vs, collect (map mi ms) = Ok (Some vs) ->
@@ -426,10 +470,8 @@ Proof.
     rewrite map_many_item. apply (concatArrays_core _ _ (VArr xs)); assumption.
   - destruct (guard_unary _ _ _ _ Ho Ea Hg) as [Hr _].
     pose proof (IH arg (le_n _) vars Hr) as Ha.
-    assert (Hgoal : R (s_concatArrays (map (seval (lift vars) doc) [arg]))
-                      (with_list (map mi (map (eval vars doc true) [arg])) m_concatArrays)).
-    { apply (concatArrays_core _ _ arg); [constructor; [exact Ha|constructor]|apply concatArrays_single_guard]. }
-    destruct arg; try discriminate Ea; exact Hgoal.
+    rewrite !(match_not_arr arg _ _ Ea).
+    apply (concatArrays_core vars doc arg [arg]); [constructor; [exact Ha|constructor]|apply concatArrays_single_guard].
 Qed.
 
 
@@ -462,19 +504,68 @@ Lemma seval_fold_list k vars doc xs : In k ["$sum"; "$avg"; "$min"; "$max"] ->
   end.
 Proof. intros [<-|[<-|[<-|[<-|[]]]]]; destruct xs as [|a [|b xs]]; reflexivity. Qed.
 
+(* the single-operand form, for an operand that is not written as an array *)
+Lemma eval_fold_plain k vars doc arg : In k ["$sum"; "$avg"; "$min"; "$max"] -> is_arr arg = false ->
+  eval vars doc true (VDoc [(k, arg)]) =
+  match arg with
+  | VStr _ =>
+      match eval vars doc true arg with
+      | EV (VArr vs) => match group_fold k vs with Ok v => EV v | Err er => EE er end
+      | EV (VStr _) | EV (VDoc _) => EE EUnmodelled
+      | EV _ => EE EType
+      | EMiss => EMiss
+      | EE er => EE er
+      end
+  | _ => EE EUnmodelled
+  end.
+Proof.
+  intros Hk Ea. destruct arg; try discriminate Ea; destruct Hk as [<-|[<-|[<-|[<-|[]]]]]; reflexivity.
+Qed.
+
+Lemma seval_fold_str k vars doc s : In k ["$sum"; "$avg"; "$min"; "$max"] ->
+  seval vars doc (VDoc [(k, VStr s)]) =
+  match seval vars doc (VStr s) with
+  | SV (VArr vs) => sfold k vs
+  | SV v => sfold k [v]
+  | SMiss => sfold k []
+  | _ => SUndef
+  end.
+Proof. intros [<-|[<-|[<-|[<-|[]]]]]; reflexivity. Qed.
+
+(* the guard of the single-operand form: the operand is an array (or fails) *)
+Lemma fold_guard_plain k arg m : In k ["$sum"; "$avg"; "$min"; "$max"] -> is_arr arg = false ->
+  node_reasons k arg [m] = 0 -> match m with EV (VArr _) | EE _ => True | _ => False end.
+Proof.
+  intros Hk Ea Hn. unfold node_reasons in Hn.
+  assert (Hl : match arg with VArr _ => true | _ => false end = false) by (destruct arg; try reflexivity; discriminate Ea).
+  rewrite Hl in Hn. clear Hl Ea.
+  destruct Hk as [<-|[<-|[<-|[<-|[]]]]]; simpl in Hn; split_guard Hn;
+    (destruct m as [[]| |]; try exact I; discriminate).
+Qed.
+
 Lemma case_fold doc k arg : In k ["$sum"; "$avg"; "$min"; "$max"] -> IHarg doc arg -> P doc (VDoc [(k, arg)]).
 Proof.
-  intros Hk. pose proof Hk as Hk'. destruct Hk' as [<-|[<-|[<-|[<-|[]]]]].
-  all: unary
-    ltac:(pose proof (IH_list _ _ _ IH Hx) as HF;
-          rewrite (eval_fold_list _ _ _ _ Hk), (seval_fold_list _ _ _ _ Hk);
-          destruct xs as [|a [|b xs']]; [|done_R|];
-          (rewrite map_many_item, with_list_mi; cbv zeta;
-           destruct (list_cases _ _ HF) as [Hu|Hu|er Hu He Hc|vs Hu He Hv Hc];
-           [rewrite Hu; done_R | rewrite Hu; done_R | rewrite Hu, He; done_R
-           |rewrite Hu, He, Hc, Hv, svalues_SV; simpl; apply fold_R; exact Hk]))
-    ltac:(try done_R; specialize (Hn I); rc Ha; simpl; try done_R; try goff;
-          try (destruct v; simpl; try done_R; try goff; apply fold_R; exact Hk)).
+  intros Hk IH vars Hg.
+  assert (Ho : ordinary k) by (destruct Hk as [<-|[<-|[<-|[<-|[]]]]]; ord).
+  destruct (is_arr arg) eqn:Ea.
+  - destruct arg as [| | | | | | | |xs]; try discriminate Ea.
+    destruct (guard_list _ _ _ _ Ho Hg) as [Hx _].
+    pose proof (IH_list _ _ _ IH Hx) as HF.
+    rewrite (eval_fold_list _ _ _ _ Hk), (seval_fold_list _ _ _ _ Hk).
+    destruct xs as [|a [|b xs']]; [|done_R|].
+    all: rewrite map_many_item, with_list_mi; cbv zeta;
+         destruct (list_cases _ _ HF) as [Hu|Hu|er Hu He Hc|vs Hu He Hv Hc];
+         [rewrite Hu; done_R | rewrite Hu; done_R | rewrite Hu, He; done_R
+         |rewrite Hu, He, Hc, Hv, svalues_SV; simpl; apply fold_R; exact Hk].
+  - destruct (guard_unary _ _ _ _ Ho Ea Hg) as [Hr Hn].
+    pose proof (IH arg (le_n _) vars Hr) as Ha. clear IH Hg Hr.
+    rewrite (eval_fold_plain _ _ _ _ Hk Ea).
+    destruct arg as [| | | |s| | | |]; try done_R.
+    pose proof (fold_guard_plain _ _ _ Hk Ea (Hn I)) as Hm. clear Hn.
+    rewrite (seval_fold_str _ _ _ _ Hk).
+    absorb (VStr s) vars doc.
+    rx Ha; try done_R; try contradiction.
+    destruct v; try contradiction. apply fold_R. exact Hk.
 Qed.
 
 Lemma case_firstlast doc k arg : In k ["$first"; "$last"] -> IHarg doc arg -> P doc (VDoc [(k, arg)]).
@@ -502,8 +593,23 @@ Lemma seval_unknown svs doc k arg : starts_dollar k = true ->
 Proof.
   intros Hd H. unfold spec_ops in H. simpl in H.
   repeat (apply orb_false_iff in H; let H1 := fresh "E" in destruct H as [H1 H]).
-  simpl.
-  rewrite Hd. simpl.
+  clear H.
+  (* one unfolding of [seval]; the tests on [k] are abstracted all at once, so that the
+     proof term holds the (large) body of [seval] once *)
+  cbn beta iota delta [seval].
+  pattern (starts_dollar k),
+    (k =? "$literal"), (k =? "$abs"), (k =? "$ceil"), (k =? "$floor"), (k =? "$trunc"), (k =? "$divide"),
+    (k =? "$mod"), (k =? "$add"), (k =? "$multiply"), (k =? "$subtract"), (k =? "$eq"), (k =? "$ne"),
+    (k =? "$gt"), (k =? "$gte"), (k =? "$lt"), (k =? "$lte"), (k =? "$and"), (k =? "$or"), (k =? "$not"),
+    (k =? "$cond"), (k =? "$ifNull"), (k =? "$switch"), (k =? "$let"), (k =? "$map"), (k =? "$filter"),
+    (k =? "$concat"), (k =? "$toLower"), (k =? "$toUpper"), (k =? "$strcasecmp"), (k =? "$substr"),
+    (k =? "$size"), (k =? "$arrayElemAt"), (k =? "$concatArrays"), (k =? "$slice"), (k =? "$isArray"),
+    (k =? "$isNumber"), (k =? "$in"), (k =? "$setEquals"), (k =? "$sum"), (k =? "$avg"), (k =? "$min"),
+    (k =? "$max"), (k =? "$first"), (k =? "$last"), (k =? "$hour"), (k =? "$minute"), (k =? "$second"),
+    (k =? "$millisecond"), (k =? "$dayOfWeek").
+  match goal with |- ?G _ _ _ _ _ _ _ _ _ _ _ _ _ _ _ _ _ _ _ _ _ _ _ _ _ _ _ _ _ _ _ _ _ _ _ _ _ _ _ _ _ _ _ _ _ _ _ _ _ _ =>
+    set (F := G) end.
+  rewrite Hd.
   repeat match goal with E : (k =? _) = false |- _ => rewrite E; clear E end.
-  simpl. reflexivity.
+  reflexivity.
 Qed.
